@@ -1,6 +1,7 @@
 """Generators for the codec-level properties: schemas (raw JSON as a user would
 write them), conforming data (boundary-dense), layouts (block partitions),
 non-conforming mutations.  Every choice comes from the rng passed in."""
+import json
 import math, struct
 
 PRIMS = ["null", "boolean", "int", "long", "float", "double", "bytes", "string"]
@@ -57,6 +58,15 @@ class SchemaGen:
     def name_attrs(self, kind, ns):
         """returns (attrs, fullname, namespace for children)"""
         rng = self.rng
+        if self.defined and rng.random() < 0.1:
+            # the SHORT name of an already defined type again, in another namespace (full names stay distinct)
+            short = rng.choice(self.defined)[0].rsplit(".", 1)[-1]
+            taken = {f for f, _, _ in self.defined} | set(self.open_records)
+            for n2 in rng.sample(["", "ns", "a.b", "x", "d"], 5):
+                full = (n2 + "." + short) if n2 else short
+                if full not in taken:
+                    self.counter += 1
+                    return {"name": short, "namespace": n2}, full, n2
         base = self.fresh(kind)
         r = rng.random()
         if r < 0.55:
@@ -69,6 +79,47 @@ class SchemaGen:
             n2 = rng.choice(["d", "p.q"])
             return {"name": n2 + "." + base}, n2 + "." + base, n2
         return {"name": base, "namespace": ""}, base, ""
+
+    def family(self, depth, ns):
+        """A record holding 2-3 records whose field lists extend one another (every datum of a later member also conforms
+        to the earlier ones) and unions that name them BY REFERENCE in random order: the writer's most-fields rule decides."""
+        rng = self.rng
+        at, full, cns = self.name_attrs("record", ns)
+        at["type"] = "record"
+
+        def simple():
+            return rng.choice(["int", "long", "string", "boolean", "double", ["null", "int"], {"type": "array", "items": "int"},
+                               {"type": "map", "values": "string"}])
+        fields_so_far = [{"name": "b%d" % i, "type": simple()} for i in range(rng.choice([0, 1, 2, 3]))]
+        members, wrapper_fields = [], []
+        for j in range(rng.choice([2, 2, 3])):
+            mat, mfull, _ = self.name_attrs("record", cns)
+            mat["type"] = "record"
+            mat["fields"] = json.loads(json.dumps(fields_so_far))
+            self.defined.append((mfull, "record", cns))
+            members.append(mfull)
+            wrapper_fields.append({"name": "m%d" % j, "type": mat})
+            extra = {"name": "e%d" % j, "type": simple()}
+            if rng.random() < 0.4:
+                ok, d = self.default_for(extra["type"], cns)
+                if ok:
+                    extra["default"] = d
+            fields_so_far = fields_so_far + [extra]
+        rng.shuffle(wrapper_fields)
+        refs = [r for r in (self.ref_spelling(m, cns) for m in members) if r is not None]
+        rng.shuffle(refs)
+        if refs:
+            u = list(refs)
+            if rng.random() < 0.5:
+                u.insert(rng.randrange(len(u) + 1), "null")
+            wrapper_fields.append({"name": "u", "type": u})
+            if rng.random() < 0.5:
+                u2 = list(refs)
+                rng.shuffle(u2)
+                wrapper_fields.append({"name": "l", "type": {"type": "array", "items": u2}})
+        at["fields"] = wrapper_fields
+        self.defined.append((full, "record", ns))
+        return at
 
     def ref_spelling(self, full, ns):
         """how a reference to `full` may be written from namespace ns"""
@@ -87,6 +138,8 @@ class SchemaGen:
             kinds += ["union", "union"]
         if self.defined or self.open_records:
             kinds += ["ref", "ref"]
+        if depth < self.max_depth - 1:
+            kinds += ["family"]
         if depth >= self.max_depth:
             kinds = ["prim"] * 4 + ["fixed", "enum"] + (["ref"] if self.defined else [])
         k = rng.choice(kinds)
@@ -107,6 +160,8 @@ class SchemaGen:
                 if sp is not None:
                     return sp
             return rng.choice(PRIMS)
+        if k == "family":
+            return self.family(depth, ns)
         if k == "fixed":
             at, full, _ = self.name_attrs("fixed", ns)
             at.update(type="fixed", size=rng.choice([0, 1, 2, 3, 4, 8, 16, 20]))
@@ -118,6 +173,8 @@ class SchemaGen:
             at, full, _ = self.name_attrs("enum", ns)
             n = rng.choice([1, 2, 3, 4])
             syms = ["A", "B", "C_1", "_d"][:n]
+            if rng.random() < 0.5:
+                rng.shuffle(syms)          # the same enum name recurs across schemas with another symbol order (cross-call state)
             at.update(type="enum", symbols=syms)
             if rng.random() < 0.3:
                 at["default"] = rng.choice(syms)
